@@ -59,6 +59,7 @@ theorem no_promotion_while_stopped {x x' : Inst} {e : Ev} (_inv : LInv x) (hnr :
     all_goals first
       | (cases h; done)
       | (cases h; left; simp_all)
+  · cases h; left; simp_all
   · split at h
     · cases h
     · cases h; left; simp_all
